@@ -203,7 +203,26 @@ fn lex() -> BoxedStrategy<String> {
 }
 
 fn literal() -> BoxedStrategy<MT> {
-    let dt = prop_oneof![4 => pick(datatypes()), 1 => iri_gen()];
+    // near-misses of the datatypes that serializers treat specially (xsd:string is implicit,
+    // rdf:langString belongs to tagged literals): a serializer that recognises them loosely
+    // (case-insensitively, by suffix, by prefix) changes the datatype on the round trip
+    let near: Vec<String> = [
+        "http://www.w3.org/2001/XMLSchema#String",
+        "http://www.w3.org/2001/XMLSchema#STRING",
+        "http://www.w3.org/2001/XMLSchema#string2",
+        "http://www.w3.org/2001/XMLSchema#strin",
+        "http://www.w3.org/2001/xmlschema#string",
+        "http://www.w3.org/2001/XMLSchema/string",
+        "https://www.w3.org/2001/XMLSchema#string",
+        "http://www.w3.org/2001/XMLSchema#normalizedString",
+        "http://example.org/XMLSchema#string",
+        "http://www.w3.org/1999/02/22-rdf-syntax-ns#langstring",
+        "http://www.w3.org/1999/02/22-rdf-syntax-ns#LangString",
+    ]
+    .iter()
+    .map(|s| s.to_string())
+    .collect();
+    let dt = prop_oneof![8 => pick(datatypes()), 2 => iri_gen(), 1 => pick(near)];
     prop_oneof![
         3 => (lex(), dt).prop_map(|(l, d)| MT::Lit(l, d)),
         2 => (lex(), tag_gen()).prop_map(|(l, t)| MT::Lang(l, t)),
